@@ -40,6 +40,9 @@ def scenario(rng, i):
                 a, b = GEN.qsi(prev['pa']), GEN.qsi(prev['helix'])
                 crit = math.cos(a) * math.tan(b)
                 e['rel']['f'] = min(1.0, rng.choice([crit, math.nextafter(crit, 2), math.nextafter(crit, 0), crit * (1 - 1e-3), crit * (1 + 1e-3), crit * 0.98, crit * 1.02]))
+                if rng.random() < 0.35 and crit < 1:
+                    # exactly ON the threshold, computed from the worm's own angle objects: the strict condition says "not self-locking"
+                    e['rel'].update(f=crit, f_is_threshold=True)
     if m == 3:
         # no controller at all: the duty cycle is assigned by hand between consecutive runs (1 -> 0 -> -1 -> ...)
         dt = spec['schedule'][0]['dt']
